@@ -53,7 +53,7 @@ REAL = ['asyncssh stream.py (SSHReader/SSHWriter/SSHStreamSession), '
         'process.py (SSHClientProcess/SSHServerProcess, redirection), '
         'channel, connection of both endpoints']
 STUB = ['event loop + clock', 'TCP', 'executor', 'OS randomness']
-PROBES = ['server_side_redirect', 'redirect_switched', 'redirect_concat', 'read_cancelled', 'async_iteration', 'mode_reader', 'mode_run', 'mode_redirect', 'text_mode',
+PROBES = ['redirect_target_failed', 'server_side_redirect', 'redirect_switched', 'redirect_concat', 'read_cancelled', 'async_iteration', 'mode_reader', 'mode_run', 'mode_redirect', 'text_mode',
           'tiny_packets', 'readuntil_multi', 'readuntil_regex',
           'incomplete_read_at_eof', 'limit_overrun', 'exit_signal',
           'exit_status', 'redirect_process', 'redirect_file',
@@ -185,6 +185,10 @@ def gen_plan(rng):
     if mode == 'redirect':
         plan['target'] = rng.choice(TARGETS)
         plan['late'] = rng.choice([0, 0, 3, 10, 40, 150])
+        # the local target of an output redirect fails after this many
+        # writes (reset by its far end / disk full)
+        plan['target_fault'] = rng.choice([None, None, None, 0, 1, 3, 20]) \
+            if plan['target'] in ('stream_out', 'afile_out') else None
 
     return plan
 
@@ -242,6 +246,12 @@ def valid_plan(plan):
             return False
 
         if not 0 <= plan.get('late', 0) <= 300:
+            return False
+
+        tf = plan.get('target_fault')
+
+        if tf is not None and (not 0 <= tf <= 1000 or plan.get('target')
+                               not in ('stream_out', 'afile_out')):
             return False
 
         gap = plan.get('pump_gap', [0, 0])
@@ -727,7 +737,11 @@ def run_plan(plan, sched_seed=None, sched_replay=None):
             process_factory=server_process,
             **server_opts(window=plan['window'],
                           max_pktsize=plan['pktsize'], **enc))
-        conn = await asyncssh.connect('127.0.0.1', 22, **client_opts())
+        owner = RecClient(world)
+        res['owner'] = owner
+        conn = await asyncssh.connect('127.0.0.1', 22,
+                                      client_factory=lambda: owner,
+                                      **client_opts())
         kw = dict(window=plan['window'], max_pktsize=plan['pktsize'], **enc)
 
         async def write_stdin(proc):
@@ -835,7 +849,18 @@ def run_plan(plan, sched_seed=None, sched_replay=None):
                     got = {'data': b'', 'eof': False}
 
                     async def peer_side(reader, writer):
-                        if target == 'stream_out':
+                        if target == 'stream_out' and \
+                                plan.get('target_fault') is not None:
+                            # the far end of the target goes away with a
+                            # reset after a few reads
+                            for _ in range(plan['target_fault']):
+                                if not await reader.read(1):
+                                    break
+
+                            sim.probes['redirect_target_failed'] += 1
+                            got['reset'] = True
+                            writer.transport.abort()
+                        elif target == 'stream_out':
                             got['data'] = await reader.read()
                             got['eof'] = True
                             writer.close()
@@ -881,6 +906,7 @@ def run_plan(plan, sched_seed=None, sched_replay=None):
                             self.pieces = list(pieces)
                             self.written = []
                             self.closed = False
+                            self.failed = False
 
                         async def read(self, n):
                             await sim.pause('afile')
@@ -898,6 +924,15 @@ def run_plan(plan, sched_seed=None, sched_replay=None):
 
                         async def write(self, data):
                             await sim.pause('afile')
+                            fault = plan.get('target_fault')
+
+                            if fault is not None and \
+                                    len(self.written) >= fault:
+                                # the disk under the target is full
+                                sim.probes['redirect_target_failed'] += 1
+                                self.failed = True
+                                raise OSError(28, 'No space left on device')
+
                             self.written.append(bytes(data))
                             return len(data)
 
@@ -1017,6 +1052,15 @@ def run_plan(plan, sched_seed=None, sched_replay=None):
                             (mode, res['exc']),
                             sig=type(res['exc']).__name__)
 
+        for exc in (res['owner'].lost if res.get('owner') else []):
+            if exc is not None and \
+                    not isinstance(exc, (asyncssh.Error, OSError)):
+                # both ends are asyncssh and behave: an exception that
+                # escaped inside the library ended the connection
+                world.violation('internal-error', 'the connection was '
+                                'closed by an internal error: %r' % (exc,),
+                                sig=type(exc).__name__)
+
         ex = plan['exit']
         want_status = ex[1] if ex[0] == 'status' else None
         want_signal = ex[1] if ex[0] == 'signal' else None
@@ -1080,7 +1124,11 @@ def run_plan(plan, sched_seed=None, sched_replay=None):
                     want = s_out.encode('utf-8') if text else s_out
                     st = res.get('stream') or {}
 
-                    if st.get('data') != want or not st.get('eof'):
+                    if st.get('reset'):
+                        # the target failed: what matters is that the call
+                        # returned and the connection survived (below)
+                        pass
+                    elif st.get('data') != want or not st.get('eof'):
                         world.violation(
                             'redirect-mismatch', 'stdout redirected to a '
                             'stream writer: peer read %d bytes (EOF seen: '
@@ -1092,7 +1140,9 @@ def run_plan(plan, sched_seed=None, sched_replay=None):
                     af = res.get('afile')
                     got = b''.join(af.written) if af else None
 
-                    if got != want or not af.closed:
+                    if af is not None and af.failed:
+                        pass
+                    elif got != want or not af.closed:
                         world.violation(
                             'redirect-mismatch', 'stdout redirected to an '
                             'async file object: %r bytes written (closed: '
